@@ -222,23 +222,49 @@ pub fn byte_strategy() -> impl Strategy<Value = u8> {
 }
 
 pub fn decode_strategy(max_len: usize) -> impl Strategy<Value = DecodeCase> {
-    (prop::collection::vec(byte_strategy(), 0..=max_len), any::<u16>()).prop_map(|(input, s)| {
+    // single bytes and whole sequences (a byte-order mark, other characters some tools treat
+    // specially, CRLF), so that valid multi-byte characters occur at the start of lines too
+    let token = prop_oneof![
+        8 => byte_strategy().prop_map(|b| vec![b]),
+        1 => prop::sample::select(vec!["\u{feff}", "\u{2028}", "\u{85}", "\u{fffd}", "é", "€", "\r\n", "\n\u{feff}", "\n\u{feff}\n"]).prop_map(|s| s.as_bytes().to_vec()),
+    ];
+    (prop::collection::vec(token, 0..=max_len).prop_map(move |ts| {
+        let mut v: Vec<u8> = ts.into_iter().flatten().collect();
+        v.truncate(max_len);
+        v
+    }), any::<u16>()).prop_map(|(input, s)| {
         let split = vcore::pick(s, input.len() + 1);
         DecodeCase { input, split }
     })
 }
 
 pub fn line_strategy() -> impl Strategy<Value = String> {
-    prop::collection::vec(
+    let ch = || {
         prop_oneof![
             5 => prop::sample::select(vec!['a', 'b', ' ', 'z', '0']),
             2 => Just('\r'),
-            2 => prop::sample::select(vec!['é', '€', '😀', '\u{0}', '\u{7f}']),
+            // multi-byte characters, control characters, and characters some tools treat specially
+            // (byte-order mark, line/paragraph separators, NEL, replacement character)
+            2 => prop::sample::select(vec!['é', '€', '😀', '\u{0}', '\u{7f}', '\u{feff}', '\u{2028}', '\u{2029}', '\u{85}', '\u{fffd}', '\t', '\u{b}', '\u{c}']),
             1 => Just('\n'),
-        ],
-        0..12,
-    )
-    .prop_map(|cs| cs.into_iter().collect())
+        ]
+    };
+    prop_oneof![
+        6 => prop::collection::vec(ch(), 0..12).prop_map(|cs| cs.into_iter().collect::<String>()),
+        // a special character in front, the rest plain
+        1 => (prop::sample::select(vec!['\u{feff}', '\u{2028}', '\u{85}', '\r', 'é']), prop::collection::vec(ch(), 0..6)).prop_map(|(c0, cs)| std::iter::once(c0).chain(cs).collect::<String>()),
+        // lengths around powers of two (stack buffers, small-string optimisations, chunk sizes)
+        1 => (prop::sample::select(vec![15usize, 16, 17, 31, 32, 33, 63, 64, 65, 127, 128, 129, 255, 256, 257, 1023, 1024, 1025]), prop::sample::select(vec!['a', 'z', 'é'])).prop_map(|(n, c)| {
+            let mut s = String::new();
+            while s.len() + c.len_utf8() <= n {
+                s.push(c);
+            }
+            while s.len() < n {
+                s.push('x');
+            }
+            s
+        }),
+    ]
 }
 
 pub fn encode_strategy() -> impl Strategy<Value = EncodeCase> {
